@@ -77,6 +77,10 @@ def dict_to_stix2(stix_dict, allow_custom=False, interoperability=False, version
 
     if not version:
         version = detect_spec_version(stix_dict)
+    elif version not in registry.STIX2_OBJ_MAPS:
+        # (otherwise no class is found for any type, and with allow_custom the
+        # content would be passed through without any validation)
+        raise ParseError("Unsupported STIX version: %r" % (version,))
 
     obj_type = stix_dict["type"]
     obj_class = registry.class_for_type(obj_type, version, "objects") \
@@ -141,6 +145,8 @@ def parse_observable(data, _valid_refs=None, allow_custom=False, interoperabilit
 
     if not version:
         version = detect_spec_version(obj)
+    elif version not in registry.STIX2_OBJ_MAPS:
+        raise ParseError("Unsupported STIX version: %r" % (version,))
 
     obj_type = obj["type"]
     obj_class = registry.class_for_type(obj_type, version, "observables")
